@@ -94,8 +94,20 @@ Definition c12_build_iff_stmt : Prop :=
     Permutation (concat (map (fun p => map (fun v => (fst p, v)) (snd p)) pushes)) (cbatch_values b ++ rejected).
 
 (* the rows of a complete batch: the i-th entity gets the i-th value pushed to each column *)
-Definition c12_rows_stmt : Prop :=
+(* without distinct TypeIds the statement is false (two "different" types comparing Equal defeat
+   dedup): ContProofs1.v proves ~ c12_rows_noinj_stmt; real TypeIds are distinct (total_inj) *)
+Definition c12_rows_noinj_stmt : Prop :=
   forall u declared n pushes,
+    let '(b, _) := cb_run (cbatch_new u declared n) pushes in
+    cbatch_complete b = true ->
+    lenN (cbatch_rows b) = n /\
+    (forall i row, nthN (cbatch_rows b) i = Some row ->
+       map fst row = cb_types b /\
+       forall t, In t declared -> lookup_first t row = nthN (pushed_to t pushes) i) /\
+    Permutation (concat (cbatch_rows b)) (cbatch_values b).
+
+Definition c12_rows_stmt : Prop :=
+  forall u declared n pushes, total_inj u ->
     let '(b, _) := cb_run (cbatch_new u declared n) pushes in
     cbatch_complete b = true ->
     lenN (cbatch_rows b) = n /\
